@@ -107,10 +107,12 @@ def classify(spec, table, kind, detail):
             only_pd = set(detail.get("pandas_error_columns", []))
         if only_pd and not (set(detail.get("polars_dtype", [])) - set(detail.get("pandas_dtype", []))) \
                 and not detail.get("pandas_coercion") and not detail.get("polars_coercion") \
-                and all(any(fs["name"] == n and fs.get("default") is not None and fs["dtype"] == "str"
-                            for fs in spec["columns"])
-                        and cols.get(n, {}).get("phys") == "float64" for n in only_pd):
-            return "polars-default-fill-casts-wrongly-typed-float-column-to-str"
+                and all(any(fs["name"] == n and fs.get("default") is not None
+                            and cols.get(n, {}).get("phys") not in (None, G.PHYS_OF[fs["dtype"]])
+                            for fs in spec["columns"]) for n in only_pd):
+            # fill_null / fill_nan with a literal of the declared type up-casts
+            # the mistyped column, so the dtype check passes on polars
+            return "polars-default-fill-casts-wrongly-typed-column"
     if kind == "parsed-output-differs" and spec.get("add_missing_columns"):
         pd_cols, pl_cols = detail.get("pandas_columns"), detail.get("polars_columns")
         declared = [c["name"] for c in spec["columns"]]
